@@ -69,6 +69,8 @@ func NewVoteDB(db youdb.Database, rawSk *ecdsa.PrivateKey) *VoteDB {
 		} else if v.round.Cmp(vote.Round) == 0 && v.roundIndex == vote.RoundIndex {
 			v.mark[VoteType(vote.VoteType)] = v.mark[VoteType(vote.VoteType)] + 1
 		} else {
+			v.round = vote.Round
+			v.roundIndex = vote.RoundIndex
 			v.mark = make(map[VoteType]uint8)
 			v.mark[VoteType(vote.VoteType)] = 1
 		}
@@ -86,6 +88,9 @@ func NewVoteDB(db youdb.Database, rawSk *ecdsa.PrivateKey) *VoteDB {
 	nextIndex2 := ReadVoteData(v.db, v.addr, NextIndex, 2)
 	updateFn(nextIndex2)
 
+	certificate := ReadVoteData(v.db, v.addr, Certificate, 1)
+	updateFn(certificate)
+
 	return v
 }
 
@@ -97,8 +102,12 @@ func (v *VoteDB) UpdateContext(round *big.Int, roundIndex uint32) {
 	v.lock.Lock()
 	defer v.lock.Unlock()
 
-	if v.round != nil && v.round.Cmp(round) == 0 && v.roundIndex == roundIndex {
-		return
+	if v.round != nil {
+		// Never move backwards: after a restart the voter re-enters index 1 of a
+		// round it may already have voted in at a higher index.
+		if c := v.round.Cmp(round); c > 0 || (c == 0 && v.roundIndex >= roundIndex) {
+			return
+		}
 	}
 
 	v.mark = make(map[VoteType]uint8)
